@@ -59,7 +59,7 @@ class ArbitraryCPhaseGate(
         self.check_parameters(params)
         U = np.identity(self.dim, dtype=np.complex128)
         U[-1, -1] = np.exp(1j * params[0])
-        return UnitaryMatrix(U)
+        return UnitaryMatrix(U, self.radixes)
 
     def optimize(self, env_matrix: npt.NDArray[np.complex128]) -> list[float]:
         """
